@@ -113,7 +113,7 @@ TEXT_ADD = {
     "C17": "",
     "C14": " Unit ffilter (added after defect F17): a directory entry counts as a file of the family iff its extension is the configured suffix and its stem is [fixed name part + '_'] + a non-empty rest whose part before the first '.' is an infix the active naming scheme accepts (InfixFilter::filter_infix, unit infix) - for every file name, with a UTF-8 model of byte offsets; two lemmas prove this equal to the pattern of the property statement. The configured symlink is made for exactly (log file, link) after whatever entry was at the link path has been removed (unit symlink). latest_timestamp_file considers files with the configured suffix only; the cleanup removes listed files only, for every listing length (unit cleanup).",
     "C13": " Logger's duplication / target setters change exactly their field; Logger::build constructs the primary writer from the configured duplication levels and writers.",
-    "C19": " Logger::build installs exactly the configured error channel; a new Logger's error channel is the variant the source marks #[default] (stderr).",
+    "C19": " The `if` direction is decided with the token fact reported(code), which only eprint_err / eprint_msg establish: State::write_buffer (a rotation that could not be completed), both arms of the synchronous StateHandle::write and of write_buffered (failing format function, failing write), the async writer thread's dispatcher and FlexiLogger::log (unknown writer names, failing additional / primary writers) must report; unit errchan proves what eprint_err / eprint_msg / try_writing_to_error_channel / try_writing_to_file / set_error_channel do: a non-empty text reaches exactly the configured channel, the error file is opened create+append and stderr is the fallback when it fails, the installed channel is the given one (documented panic = precondition). Logger::build installs exactly the configured error channel; a new Logger's error channel is the variant the source marks #[default] (stderr).",
     "C10": " Start-up: the representation invariant of the Logger builder (the write mode kept for the writers never flushes on its own) is established by the constructor, kept by every setter that touches the file-writer builder and required by Logger::build; under it the `unreachable!` and `assert_eq!` of StdWriter::new are discharged (units wmode, lbuild, primary, stdw).",
     "C15": " The write mode reaches the writers unchanged in what it means for the bytes (WriteMode::without_flushing keeps buffering and capacities; StdWriter::new / FileLogWriterBuilder setters / Logger setters hand it on field by field).",
     "C20": " The configuration wiring is under contract: FileLogWriterBuilder::{new, every setter} (each changes exactly the field it names; LF is the default line ending, CRLF only after use_windows_line_ending), Logger::{from_spec_and_errs, every setter that touches the file-writer builder}, PrimaryWriter::{multi, stderr, stdout, test} and MultiWriter::new / StdWriter::new (each format function reaches the output it was configured for: parameter order of the constructors is read from the source on every run).",
@@ -141,14 +141,14 @@ TEXT["C20"] = ("Framing only. Verus proves on the code copied from /repo that ev
                "NOT decided: fidelity of the provided format functions and JSON validity (core::fmt / serde_json code, an oracle `fmt_bytes` here); the scaffolding around the "
                "copied closure arms (buffer_with, RefCell::try_borrow_mut, thread_local) is not verified; format function and record are opaque values.")
 TEXT["C20"] = (TEXT["C20"][0] + TEXT_ADD["C20"], TEXT["C20"][1])
-TEXT["C17"] = ("Parsing half only. Verus proves on the text of LogSpecification::parse copied from /repo in four pieces (head, body of the loop over the comma-separated "
+TEXT["C17"] = ("Parsing half, and what Display renders. Verus proves on the text of LogSpecification::parse copied from /repo in four pieces (head, body of the loop over the comma-separated "
                "parts, error arm of the text-filter closure, tail) and on push_err / parse_err / parse_level_filter / contains_whitespace / new_with / off: the input is "
                "rejected as a whole (error, specification without any entry) iff it has more than two '/'-separated pieces; a part is skipped if empty, adds exactly its "
                "entry and no error text if it is well-formed by the documented grammar (`level` | `module` | `module=` | `module=level`, level words case-insensitive, "
                "no white space inside a module name, at most one '='), and adds error text and no entry otherwise; error text is never taken away; the result is Err iff "
                "error text was collected, and in both cases carries the collected entries as a sorted permutation. lemma_parts proves by induction what the fold of these "
                "steps over any list of parts yields: error iff some part is malformed, entries exactly those of the well-formed parts in order. Panic freedom of all these "
-               "pieces is part of every obligation (C10).",
+               "pieces is part of every obligation (C10). Display for LogSpecification (Formatter as a shim holding the text written so far) renders the default level, if the list ends with the default entry, and every named entry as `name = level`.",
                "NOT decided: the round trip Display / TOML -> parse (core::fmt, toml: no specifications), regex compilation (oracle), from_toml; `split`, `trim`, `to_lowercase`, "
                "`char::is_whitespace`, `format!` are oracles (a format! with a literal character yields non-empty text: checked by the extractor, rule R32); not verified: the `for` "
                "statement over the parts and the `filter.and_then(|filter| match Regex::new(filter) ..)` scaffolding between the copied pieces (Verus: no `continue` in for "
